@@ -85,7 +85,9 @@ type certstore struct {
 
 // BuildNameToCertificate parses Certificates and builds NameToCertificate
 // from the CommonName and SubjectAlternateName fields of each of the leaf
-// certificates.
+// certificates. The names are indexed in lower case since host names
+// are compared without regard to case and getCertificate looks for the
+// lower cased server name.
 func (c *certstore) BuildNameToCertificate() {
 	c.NameToCertificate = make(map[string]*tls.Certificate)
 	for i := range c.Certificates {
@@ -95,10 +97,10 @@ func (c *certstore) BuildNameToCertificate() {
 			continue
 		}
 		if len(x509Cert.Subject.CommonName) > 0 {
-			c.NameToCertificate[x509Cert.Subject.CommonName] = cert
+			c.NameToCertificate[strings.ToLower(x509Cert.Subject.CommonName)] = cert
 		}
 		for _, san := range x509Cert.DNSNames {
-			c.NameToCertificate[san] = cert
+			c.NameToCertificate[strings.ToLower(san)] = cert
 		}
 	}
 }
